@@ -23,7 +23,9 @@ func ItemText(i int) string {
 	return fmt.Sprintf("%06d %s%s%s", i, syll[i%7], syll[(i/7)%7], syll[(i/49)%7])
 }
 
-var Queries = []string{"", "a", "ab", "abc", "b", "bc", "c", "ca", "cab", "'ab", "'abc", "a b", "ab c", "abc a", "!x a", "a | x", "0", "00", "1", "^0", "b$", "ba", "'ba c"}
+var Queries = []string{"", "a", "ab", "abc", "b", "bc", "c", "ca", "cab", "'ab", "'abc", "a b", "ab c", "abc a", "!x a", "a | x", "0", "00", "1", "^0", "b$", "ba", "'ba c",
+	// few matches per chunk (<= 20): these are the results the chunk cache keeps and hands to later, refined queries
+	"'cabcab", "xx", "'xcab", "xx !1", "'cabcab !2", "xx 'ab", "xx | 'cabcab", "xxx"}
 
 type World struct {
 	Cache *fzf.ChunkCache
